@@ -1473,6 +1473,7 @@ class LoweringDriver(Lowering):
             return
         f.busy = True
         try:
+            self.tm.context_record = f.record
             em = FnEmitter(self, f)
             em.emit()
         except Unsupported as e:
@@ -1481,6 +1482,7 @@ class LoweringDriver(Lowering):
             import traceback
             f.error = 'internal: %r %s' % (e, traceback.format_exc().splitlines()[-3:])
         f.busy = False
+        self.tm.context_record = None
         if f.error is None:
             self.done.append(f)
 
@@ -1524,6 +1526,14 @@ class LoweringDriver(Lowering):
             elif re.match(r'^std::initializer_list<(.*)>$', canon):
                 inner = re.match(r'^std::\w+<(.*)>$', canon).group(1)
                 lines = ['%s *_M_array;' % self.tm.ctype(inner), 'uint64_t _M_len;']
+            elif re.match(r'^std::optional<(.*)>$', canon):
+                inner = re.match(r'^std::\w+<(.*)>$', canon).group(1)
+                lines = ['_Bool _engaged;', '%s _val;' % self.tm.ctype(inner)]
+            elif canon == 'std::nullopt_t':
+                lines = ['char _empty;']
+            elif re.match(r'^std::tuple<(.*)>$', canon):
+                parts = split_targs(re.match(r'^std::tuple<(.*)>$', canon).group(1))
+                lines = ['%s _%d;' % (self.tm.ctype(pt), i) for i, pt in enumerate(parts)]
             elif canon in self.SYNTH:
                 lines = list(self.SYNTH[canon])
             elif re.match(r'^GhostStdAlloc<.*>$', canon):
@@ -1567,6 +1577,17 @@ class LoweringDriver(Lowering):
             except Unsupported as e:
                 defs[canon] = (self.tm.struct_tags[canon], None, [])
         bytag = {'struct ' + v[0]: k for k, v in defs.items()}
+        # a struct with a by-value member of undefined type is itself left undefined
+        changed = True
+        while changed:
+            changed = False
+            for canon, (tag, lines, deps) in list(defs.items()):
+                if lines is None:
+                    continue
+                for d in deps:
+                    if d not in bytag or defs[bytag[d]][1] is None:
+                        if any(re.match(r'^%s \w' % re.escape(d), l) for l in lines):
+                            defs[canon] = (tag, None, deps); changed = True; break
         def visit(canon, stack=()):
             tag, lines, deps = defs[canon]
             if tag in emitted:
@@ -1604,7 +1625,11 @@ class LoweringDriver(Lowering):
             for prim in sorted(f.l0):
                 if prim in known:
                     continue
-                base = prim.split('__')[0]
+                parts = prim.split('__')
+                base = None
+                for cut in range(len(parts) - 1, 0, -1):
+                    if '__'.join(parts[:cut]) in known:
+                        base = '__'.join(parts[:cut]); break
                 if base in known:
                     a = '#define %s %s' % (prim, base)
                     if a not in aliases:
